@@ -11,6 +11,7 @@ Streams (all derived from run.seed):
 Independently of the model every real output is judged by the clause oracle (Python Fractions):
 code set, sign / threshold, scale >= 0, scale constant on the SPEC groups, least-squares identity on
 the SPEC groups, power of two within the configured exponent bounds."""
+import copy
 from fractions import Fraction as F
 
 import numpy as np
@@ -115,8 +116,9 @@ def impl_call(Q, K, tf, c):
   K.set_image_data_format("channels_last" if c["ch_last"] else "channels_first")
   try:
     if c["q"] == "binary":
-      q = Q.binary(use_01=c["use01"], alpha=c["alpha"], scale_axis=c["sa"], elements_per_scale=c["eps"],
-                   min_po2_exponent=c["mn"], max_po2_exponent=c["mx"])
+      # the real code gets private copies of the lists: `c` stays the CONFIGURED value the oracle judges by
+      q = Q.binary(use_01=c["use01"], alpha=c["alpha"], scale_axis=copy.deepcopy(c["sa"]),
+                   elements_per_scale=copy.deepcopy(c["eps"]), min_po2_exponent=c["mn"], max_po2_exponent=c["mx"])
     else:
       q = Q.ternary(alpha=c["alpha"], threshold=c["thr"], number_of_unrolls=c["unrolls"])
     xt = tf.constant(c["x"])
@@ -153,6 +155,8 @@ def judge(run, c, x, xste, y, sc, eps32, model, mirrored):
     key0["cls"] = c["cls"]      # stochastic_binary / stochastic_ternary in the inference phase
   det0 = {"case": label(c)}
   n = len(x)
+  if n <= 64:
+    det0["x"] = [float(v) for v in x]      # the concrete input (row-major), small tensors only
   # ---- constant alpha (any numeric form, scalar or ndarray) / None: `q.scale` IS alpha (1 for None),
   # broadcast to the input; the output is then judged as scale x code below
   if not auto:
@@ -417,7 +421,7 @@ def run(run, tier):
   mo = core.run_driver("C04", ml)
   for (sh, sa, eps, want), o in zip(MALFORMED, mo):
     try:
-      q = Q.binary(alpha="auto", scale_axis=sa, elements_per_scale=eps)
+      q = Q.binary(alpha="auto", scale_axis=copy.deepcopy(sa), elements_per_scale=copy.deepcopy(eps))
       q(tf.constant(np.ones(sh, dtype=np.float32)))
       got = "ok"
     except AssertionError:
@@ -432,7 +436,18 @@ def run(run, tier):
     if o.get("err") != got:
       run.disagree("malformed", dict(shape=sh, sa=sa, eps=eps), got, o.get("err", "ok"))
 
-  # ---- static helpers on their own (exhaustive over a small lattice)
+  # ---- static helpers on their own (exhaustive over a small lattice).  The helpers get private copies of the
+  # list arguments and must leave them as they were (they are handed the quantizer's own attributes)
+  def helper(fn, *args):
+    mine = copy.deepcopy(args)
+    out = fn(*mine)
+    if mine != args:
+      run.count("clause:argument_not_mutated:FAIL")
+      run.violate("argument_not_mutated", dict(quantizer="binary", helper=fn.__name__),
+                  {"helper": fn.__name__, "arguments": [repr(a) for a in args], "after_the_call": [repr(a) for a in mine]},
+                  mirrored=False)
+    return out
+
   sl, want = [], []
   for rank in range(0, 6):
     for ch_last in (True, False):
@@ -442,7 +457,7 @@ def run(run, tier):
         sl.append(dict(op="scaling_axis", sa=sa, len=rank, ch_last=ch_last))
         K.set_image_data_format("channels_last" if ch_last else "channels_first")
         try:
-          want.append([int(v) for v in np.asarray(Q._get_scaling_axis(sa, rank)).ravel().tolist()])
+          want.append([int(v) for v in np.asarray(helper(Q._get_scaling_axis, sa, rank)).ravel().tolist()])
         except Exception as e:  # pylint: disable=broad-except
           want.append("raises:" + type(e).__name__)
   # negative axes (counted from the end), through the argument-level model `axisOfArg`; axes below -rank are
@@ -454,7 +469,7 @@ def run(run, tier):
     for sa in specs:
       sl.append(dict(op="scaling_axis_arg", sa=sa, len=rank, ch_last=True))
       try:
-        want.append([int(v) for v in np.asarray(Q._get_scaling_axis(sa, rank)).ravel().tolist()])
+        want.append([int(v) for v in np.asarray(helper(Q._get_scaling_axis, sa, rank)).ravel().tolist()])
       except Exception as e:  # pylint: disable=broad-except
         want.append("raises")
   K.set_image_data_format("channels_last")
@@ -463,9 +478,9 @@ def run(run, tier):
                       ([2, 4, 8], 2, 8), ([2, 4, 8], [1], [4])]:
     sl.append(dict(op="shapes", shape=sh, sa=sa, eps=eps))
     try:
-      sa2, eps2 = Q._validate_axis_and_eps(list(sh), sa, eps)
-      u, ua = Q._get_unrolled_shape(list(sh), eps2, sa2)
-      rb = Q._get_rolled_back_shape(list(u), ua)
+      sa2, eps2 = helper(Q._validate_axis_and_eps, list(sh), sa, eps)
+      u, ua = helper(Q._get_unrolled_shape, list(sh), eps2, sa2)
+      rb = helper(Q._get_rolled_back_shape, list(u), ua)
       want.append(dict(unrolled=list(u), uaxes=(ua if isinstance(ua, list) else [ua]), rolled=list(rb)))
     except Exception as e:  # pylint: disable=broad-except
       want.append("raises:" + type(e).__name__)
